@@ -72,4 +72,53 @@ SimplifyContract(e) ==
         ELSE LET w == EquivWitness(e.in, e.out)
              IN  Verdict(Fl("same_value", w = -1), <<>>, w)
 
+\* ------------------------------------------------------------------ C03
+(***************************************************************************)
+(* An application is [op, args, p, n, ty, bv] (Gen_Apply).  IntendedNode is *)
+(* the node the constructor is meant to build: payloads are computed from   *)
+(* the arguments the way the documented constructors do.                    *)
+(***************************************************************************)
+WidthOrZero(t) == IF TyF(t).k = "BV" THEN TyF(t).w ELSE 0
+IntendedNode(app) ==
+    LET op == app.op
+        args == app.args
+        w1 == IF Len(args) >= 1 THEN WidthOrZero(args[1]) ELSE 0
+    IN
+    CASE op \in BVUnOps \cup BVBinOps -> OpI(op, args, <<w1>>)
+      [] op = "bv_comp" -> OpI(op, args, <<1>>)
+      [] op = "bv_concat" -> OpI(op, args, <<w1 + (IF Len(args) >= 2 THEN WidthOrZero(args[2]) ELSE 0)>>)
+      [] op = "bv_extract" -> OpI(op, args, <<app.p[2] - app.p[1] + 1, app.p[1], app.p[2]>>)
+      [] op \in {"bv_rol", "bv_ror"} -> OpI(op, args, <<w1, app.p[1]>>)
+      [] op \in {"bv_zext", "bv_sext"} -> OpI(op, args, <<w1 + app.p[1], app.p[1]>>)
+      [] op = "function" -> App(app.n, app.ty, args)
+      [] op = "array_value" ->
+            \* documented: assignments whose value is the default are not represented
+            \* (they are dropped before the node is built and type-checked)
+            LET RECURSIVE Keep(_)
+                Keep(j) == IF j + 1 > Len(args) THEN <<>>
+                           ELSE (IF args[j + 1] = args[1] THEN <<>> ELSE <<args[j], args[j + 1]>>) \o Keep(j + 2)
+            IN  ArrV(app.ty, <<args[1]>> \o Keep(2))
+      [] op \in {"forall", "exists"} -> Quant(op, app.bv, args[1])
+      [] OTHER -> Op(op, args)
+
+\* documented constructor normalisations that return an argument / a constant
+\* instead of building the node
+NormalisedAway(app) ==
+    \/ app.op \in {"and", "or", "plus", "times"} /\ Len(app.args) <= 1
+    \/ app.op = "toreal" /\ Len(app.args) = 1 /\ TyF(app.args[1]) = TReal
+    \/ app.op = "function" /\ Len(app.args) = 0
+    \/ app.op \in {"forall", "exists"} /\ app.bv = <<>>
+
+(* create(app) -> res \in {"ok","error"}; out / rty = result and its reported sort *)
+CreateContract(e) ==
+    IF e.res = "error" THEN Accept       \* rejecting is always allowed by the property
+    ELSE LET tout == TypeOf(e.out)
+             ill == TypeOf(IntendedNode(e.app)) = Ill /\ ~NormalisedAway(e.app)
+         IN  Verdict(Fl("ill_typed_application_accepted", ~ill) \o
+                     Fl("output_well_typed", tout # Ill) \o
+                     Fl("reported_type_out", tout = Ill \/ e.rty = tout), <<>>, -1)
+
+\* would the typing rules accept the application?  (used to count well-typed rejections)
+AppWellTyped(app) == TypeOf(IntendedNode(app)) # Ill
+
 =============================================================================
